@@ -10,7 +10,9 @@ import (
 // until a receiver has taken it; a receiver is enabled when a value is offered (or buffered, or the
 // channel is closed).
 type Chan[T any] struct {
-	buf    []T
+	ring   []T // fixed ring buffer of cap elements (never grown)
+	head   int
+	n      int
 	cap    int
 	closed bool
 	// rendezvous slot for cap == 0
@@ -30,6 +32,9 @@ func MakeChan[T any](n ...int) *Chan[T] {
 	if len(n) > 0 {
 		c.cap = n[0]
 	}
+	if c.cap > 0 {
+		c.ring = make([]T, c.cap)
+	}
 	return c
 }
 
@@ -42,7 +47,7 @@ func (c *Chan[T]) canSend() bool {
 		return true // will panic, like the real thing
 	}
 	if c.cap > 0 {
-		return len(c.buf) < c.cap
+		return c.n < c.cap
 	}
 	return !c.offered
 }
@@ -53,7 +58,7 @@ func (c *Chan[T]) canRecv() bool {
 		return false
 	}
 	if c.cap > 0 {
-		return len(c.buf) > 0 || c.closed
+		return c.n > 0 || c.closed
 	}
 	return (c.offered && !c.taken) || c.closed
 }
@@ -101,7 +106,8 @@ func (c *Chan[T]) Send(v T) {
 	raceReleaseMerge(unsafe.Pointer(&c.tok))
 	if c.cap > 0 {
 		raceAcquire(unsafe.Pointer(&c.tok)) // over-approximates "k-th receive happens before (k+C)-th send completes"
-		c.buf = append(c.buf, v)
+		c.ring[(c.head+c.n)%c.cap] = v
+		c.n++
 		return
 	}
 	c.slot, c.offered, c.taken = v, true, false
@@ -122,9 +128,12 @@ func (c *Chan[T]) Send(v T) {
 func (c *Chan[T]) doRecv() (v T, ok bool) {
 	raceAcquire(unsafe.Pointer(&c.tok))
 	if c.cap > 0 {
-		if len(c.buf) > 0 {
-			v = c.buf[0]
-			c.buf = c.buf[1:]
+		if c.n > 0 {
+			v = c.ring[c.head]
+			var zero T
+			c.ring[c.head] = zero
+			c.head = (c.head + 1) % c.cap
+			c.n--
 			raceReleaseMerge(unsafe.Pointer(&c.tok))
 			return v, true
 		}
@@ -186,7 +195,7 @@ func (c *Chan[T]) Close() {
 // Len replaces len(c).
 //
 //go:norace
-func (c *Chan[T]) Len() int { return len(c.buf) }
+func (c *Chan[T]) Len() int { return c.n }
 
 // ---- select ----
 
